@@ -116,7 +116,12 @@ CLAIMED = {
              "undefined in the code (NaN) and total in the model; compared only when defined.",
         ref="§5 C05"),
     "C07": dict(
-        text="Executable Lean model of the detector (tape version and exact kernel) and of the sampling pipelines "
+        text="Lean theorems for every tape/seed: the variate-to-outcome map is an interval of length p_k/sum (so the "
+             "push-forward of the uniform tape is the normalised distribution); the detector kernel is a probability "
+             "distribution with the stated stage order (closed form per mode, binomial thinning, one dark count, "
+             "threshold); every returned state is the accepted, herald-free form of a detected state satisfying "
+             "post-selection and min_detection; sample_N_outputs returns exactly N samples from the exact conditional "
+             "distribution. Executable Lean model of the detector (tape version and exact kernel) and of the sampling pipelines "
              "(sample_N_inputs, sample_N_outputs, sample) as functions of the random tape; the harness reproduces the "
              "uniform variates numpy / stdlib draw from the seed and demands sample-by-sample agreement with the model, "
              "checks every returned state against heralds / post-selection / min_detection / herald removal, exactly-N "
@@ -152,6 +157,19 @@ CLAIMED = {
         note="PARTIAL: drawsvg / matplotlib primitives and the text placed on the drawing are exercised but not "
              "modelled. Known finding F25 (zero-mode circuits cannot be displayed).",
         ref="§5 C19"),
+    "C10": dict(
+        text="Parameter/ParameterDict setters and parametrised circuits are modelled in Lean by reusing the circuit "
+             "model at a symbolic scalar type. Fifteen theorems, for all histories, circuits and stores: the bounds "
+             "invariant, rejected calls are no-ops, naturality of the whole construction and rewrite API under "
+             "resolution (so U always reads current values), exactly-once and complete listing through groups and add, "
+             "frozen-copy constancy, invalid value => CircuitCompilationError. Tied to the code by comparing all live "
+             "objects after every call of generated interleaved histories; the clauses are also evaluated on the "
+             "implementation alone through a shadow rebuild.",
+        technique="Lean 4 proof over an executable model (symbolic-scalar circuits + parameter store) with stateful "
+                  "differential correspondence",
+        note="NaN, complex and bool inputs lie outside the ordered domain, are probed directly and give the known "
+             "finding F15. Float sqrt/exp enter as a per-case table of exact values.",
+        ref="§5 C10"),
 }
 
 PENDING_REASON = "check not built yet in this session (planned, see DESIGN.md §5 and §11); not claimed until its machinery exists"
